@@ -61,7 +61,7 @@ Section Bound.
     (comp (de s) = true -> comp (de s') = true) /\ ptyp (pa s') = ptyp (pa s) /\
     connected (pr s') = connected (pr s) /\ parser_alive (pr s') = parser_alive (pr s) /\
     (reof (re s) = true -> reof (re s') = true /\ rsize (re s') = rsize (re s)) /\
-    (Sz s -> Sz s') /\ (closing (pr s) = true -> closing (pr s') = true).
+    (Sz s -> Sz s') /\ closing (pr s') = closing (pr s).
 
   Lemma frame_refl s : frame s s.
   Proof. unfold frame; intuition. Qed.
@@ -69,7 +69,7 @@ Section Bound.
   Proof.
     unfold frame. intros (A1 & A2 & A3 & A4 & A5 & A6 & A7 & A8 & A9 & A10) (B1 & B2 & B3 & B4 & B5 & B6 & B7 & B8 & B9 & B10).
     split; [congruence|]. split; [congruence|]. split; [congruence|]. split; [auto|]. split; [congruence|].
-    split; [congruence|]. split; [congruence|]. split; [|split; auto].
+    split; [congruence|]. split; [congruence|]. split; [|split; [auto|congruence]].
     intros Hr. destruct (A8 Hr) as [Hr' Hs]. destruct (B8 Hr') as [Hr'' Hs']. split; congruence.
   Qed.
 
@@ -81,7 +81,7 @@ Section Bound.
   Ltac inv_some := repeat match goal with Hs : Some _ = Some _ |- _ => inversion Hs; clear Hs; subst end.
   Ltac crush := repeat split; intros; subst; inv_some; try reflexivity; try discriminate; try tauto; try congruence; try lia; intuition (try congruence; try lia).
   Ltac bust s :=
-    destruct s as [c p q d rr fd]; destruct p as [co tp rp al ppr hm cl]; destruct q as [pt pl ppz cs csz ctl mo ep pd ntr btr];
+    destruct s as [cg p q d rr fd]; destruct p as [co tp rp al ppr hm cl]; destruct q as [pt pl ppz cs csz ctl mo ep pd ntr btr];
     destruct d as [cm en dh dsz dst]; destruct rr as [bf rs lo hi lc hc eo ex tt cu sp w dl].
   Ltac unf := unfold frame in *; unfold B, Sz, E, G, K, over, Mx in *.
 
@@ -283,9 +283,6 @@ Section Bound.
   Qed.
 
   Ltac leafG := apply bok_of_R; [assumption|assumption|solveR].
-  Ltac leafK := (split; [|split; [|split]]); [..|left; assumption];
-                [eapply (proj1 (bokK_of_R _ _ _ _ _)) | eapply (proj1 (proj2 (bokK_of_R _ _ _ _ _))) | eapply (proj2 (proj2 (bokK_of_R _ _ _ _ _)))].
-
   Lemma blk_size_spec s chunk : ptyp (pa s) = PChunked -> B s -> G s -> bok s (blk_size H s chunk).
   Proof.
     intros Ht Hb Hg. unfold blk_size.
@@ -296,5 +293,447 @@ Section Bound.
            end; cbn [bok];
       first [ leafG
             | (destruct (bokK_of_R s _ Hb Hg ltac:(solveR)) as (X1 & X2 & X3); split; [exact X1|split; [exact X2|split; [exact X3|left; exact Ht]]]) ].
+  Qed.
+
+  Ltac leafKc Ht Hb Hg s := destruct (bokK_of_R s _ Hb Hg ltac:(solveR)) as (X1 & X2 & X3); split; [exact X1|split; [exact X2|split; [exact X3|left; exact Ht]]].
+  Ltac walk :=
+    repeat match goal with
+           | |- bok _ (match ?x with _ => _ end) => destruct x eqn:?
+           | |- bok _ (if ?x then _ else _) => destruct x eqn:?
+           | |- bok _ (let _ := _ in _) => cbv zeta
+           end; cbn [bok].
+
+  Lemma blk_eof_spec s chunk : ptyp (pa s) = PChunked -> B s -> G s -> bok s (blk_eof H s chunk).
+  Proof. intros Ht Hb Hg. unfold blk_eof. walk; first [leafG | leafKc Ht Hb Hg s]. Qed.
+
+  Lemma blk_trailers_spec s chunk : ptyp (pa s) = PChunked -> B s -> G s -> bok s (blk_trailers H heof hflush s chunk).
+  Proof.
+    intros Ht Hb Hg. unfold blk_trailers.
+    repeat match goal with
+           | |- bok _ (match finish_eof _ _ _ _ _ with _ => _ end) => fail 1
+           | |- bok _ (match ?x with _ => _ end) => destruct x eqn:?
+           | |- bok _ (if ?x then _ else _) => destruct x eqn:?
+           | |- bok _ (let _ := _ in _) => cbv zeta
+           end; cbn [bok]; try first [leafG | leafKc Ht Hb Hg s].
+    match goal with |- bok _ (match finish_eof _ _ _ ?t ?c with _ => _ end) => destruct (finish_eof H heof hflush t c) as [s2 r2] eqn:Ef; set (t0 := t) in * end.
+    cbn [bok]. destruct (finish_eof_spec _ _ _ _ Ef) as (F4 & B4 & K4 & G4 & E4).
+    assert (Rt : R s t0) by (subst t0; solveR). destruct Rt as (F0 & B0 & G0 & K0).
+    split; [eapply frame_trans; eauto|]. split; [auto|]. split; [auto using G_K|]. left; exact Ht.
+  Qed.
+
+  Lemma blk_chunk_spec s chunk :
+    comp (de s) = true -> ptyp (pa s) = PChunked -> B s -> G s -> bok s (blk_chunk H hnew hstep havail s chunk).
+  Proof.
+    intros Hc Ht Hb Hg. unfold blk_chunk. destruct (cst (pa s)); cbn [bok]; try leafG.
+    destruct (ppaused (pa s)) eqn:Ep; cbn [bok].
+    - destruct (bokK_unpause s s (fun q => pa_tail (pa_paused q false) chunk) Hb Hg (R_refl s)) as (X1 & X2 & X3); [keeps_tac|].
+      split; [exact X1|split; [exact X2|split; [exact X3|left; exact Ht]]].
+    - cbv zeta.
+      assert (He : E s). { unfold E, G in *. destruct Hg as [?|Hg]; [left; assumption|]. right. intro Ho. destruct (Hg Ho) as (X & _). congruence. }
+      destruct (upd_keep s (fun q => pa_csize q (dg_remaining (csize (pa s)) (lenN chunk)))) as (F0 & B0 & _ & _ & E0 & _ & _ & D0); [keeps_tac|].
+      set (s0 := upd_pa H s _) in *.
+      assert (Hc0 : comp (de s0) = true) by (rewrite D0; exact Hc).
+      destruct (db_feed H hnew hstep havail s0 (take (csize (pa s)) chunk)) as [s1 [e|m]] eqn:Ed;
+        destruct (db_feed_spec _ _ _ _ Hc0 (B0 Hb) (E0 He) Ed) as (F1 & B1 & G1); cbn [bok].
+      + split; [ft|]. split; [auto|]. split; [apply G_K; auto|]. left; exact Ht.
+      + assert (F01 : frame s s1) by ft.
+        destruct m; [|destruct (negb (csize (pa (upd_pa H s1 (fun q => pa_more q false))) =? 0))]; cbn [bok].
+        * destruct (bok_of_R s1 (upd_pa H s1 (fun q => pa_more q true)) B1 G1 ltac:(solveR)) as (Y1 & Y2 & Y3).
+          split; [ft|]. auto.
+        * destruct (bokK_unpause s1 (upd_pa H s1 (fun q => pa_more q false)) (fun q => pa_paused q false) B1 G1 ltac:(solveR)) as (Y1 & Y2 & Y3); [keeps_tac|].
+          split; [ft|]. split; [auto|]. split; [auto|]. left; exact Ht.
+        * destruct (bok_of_R s1 (rd_end_chunk H (upd_pa H (upd_pa H s1 (fun q => pa_more q false)) (fun q => pa_cst q CChunkEof))) B1 G1 ltac:(solveR)) as (Y1 & Y2 & Y3).
+          split; [ft|]. auto.
+  Qed.
+
+  Lemma chunk_loop_spec f : forall s chunk s' r,
+    comp (de s) = true -> ptyp (pa s) = PChunked -> B s -> G s ->
+    chunk_loop H hnew hstep havail heof hflush f s chunk = (s', r) -> frame s s' /\ B s' /\ K s'.
+  Proof.
+    induction f as [|f IH]; intros s chunk s' r Hc Ht Hb Hg; cbn [chunk_loop].
+    - intros [= <- <-]. split; [apply frame_refl|]. auto using G_K.
+    - destruct (isnil chunk && negb (more (pa s))); [intros [= <- <-]; split; [apply frame_refl|]; auto using G_K|].
+      assert (next : forall t c, frame s t -> B t -> G t -> chunk_loop H hnew hstep havail heof hflush f t c = (s', r) -> frame s s' /\ B s' /\ K s').
+      { intros t c Ft Bt Gt Hl. apply IH in Hl; auto.
+        - destruct Hl as (F' & B' & K'). split; [eapply frame_trans; eauto|]. auto.
+        - destruct Ft as (_ & _ & _ & X & _); auto.
+        - destruct Ft as (_ & _ & _ & _ & X & _); congruence. }
+      assert (CT : forall t, frame s t -> comp (de t) = true /\ ptyp (pa t) = PChunked).
+      { intros t Ft. destruct Ft as (_ & _ & _ & X & Y & _). split; [auto|congruence]. }
+      pose proof (blk_size_spec s chunk Ht Hb Hg) as S1.
+      destruct (blk_size H s chunk) as [s1 c1|s1 c1|s1 r1]; cbn [bok] in S1.
+      2: { destruct S1 as (F1 & B1 & G1). eauto. }
+      2: { destruct S1 as (F1 & B1 & K1 & _). intros [= <- <-]. auto. }
+      destruct S1 as (F1 & B1 & G1). destruct (CT _ F1) as (C1 & T1).
+      pose proof (blk_chunk_spec s1 c1 C1 T1 B1 G1) as S2.
+      destruct (blk_chunk H hnew hstep havail s1 c1) as [s2 c2|s2 c2|s2 r2]; cbn [bok] in S2.
+      2: { destruct S2 as (F2 & B2 & G2). apply next; auto. eapply frame_trans; eauto. }
+      2: { destruct S2 as (F2 & B2 & K2 & _). intros [= <- <-]. split; [eapply frame_trans; eauto|]. auto. }
+      destruct S2 as (F2 & B2 & G2). assert (F02 : frame s s2) by (eapply frame_trans; eauto). destruct (CT _ F02) as (C2 & T2).
+      pose proof (blk_eof_spec s2 c2 T2 B2 G2) as S3.
+      destruct (blk_eof H s2 c2) as [s3 c3|s3 c3|s3 r3]; cbn [bok] in S3.
+      2: { destruct S3 as (F3 & B3 & G3). apply next; auto. eapply frame_trans; eauto. }
+      2: { destruct S3 as (F3 & B3 & K3 & _). intros [= <- <-]. split; [eapply frame_trans; eauto|]. auto. }
+      destruct S3 as (F3 & B3 & G3). assert (F03 : frame s s3) by (eapply frame_trans; eauto). destruct (CT _ F03) as (C3 & T3).
+      pose proof (blk_trailers_spec s3 c3 T3 B3 G3) as S4.
+      destruct (blk_trailers H heof hflush s3 c3) as [s4 c4|s4 c4|s4 r4]; cbn [bok] in S4.
+      + destruct S4 as (F4 & B4 & G4). apply next; auto. eapply frame_trans; eauto.
+      + destruct S4 as (F4 & B4 & G4). apply next; auto. eapply frame_trans; eauto.
+      + destruct S4 as (F4 & B4 & K4 & _). intros [= <- <-]. split; [eapply frame_trans; eauto|]. auto.
+  Qed.
+
+  Lemma chunked_feed_spec f s c s' r :
+    comp (de s) = true -> ptyp (pa s) = PChunked -> B s -> E s ->
+    chunked_feed H hnew hstep havail heof hflush f s c = (s', r) -> frame s s' /\ B s' /\ K s'.
+  Proof.
+    intros Hc Ht Hb He. unfold chunked_feed.
+    match goal with |- (if ?x then _ else _) = _ -> _ => destruct x end.
+    - intros [= <- <-]. split; [apply frame_refl|]. auto using G_K, E_G.
+    - destruct (upd_keep s (fun q => pa_tail q [])) as (F0 & B0 & G0 & _ & _ & _ & _ & D0); [keeps_tac|].
+      assert (Hc0 : comp (de (upd_pa H s (fun q => pa_tail q []))) = true) by (rewrite D0; auto).
+      assert (Ht0 : ptyp (pa (upd_pa H s (fun q => pa_tail q []))) = PChunked) by (destruct F0 as (_ & _ & _ & _ & X & _); congruence).
+      intros Hl. destruct (chunk_loop_spec _ _ _ _ _ Hc0 Ht0 (B0 Hb) (G0 (E_G _ He)) Hl) as (F1 & B1 & K1).
+      split; [eapply frame_trans; [exact F0|exact F1]|]. split; [exact B1|exact K1].
+  Qed.
+
+  (* HttpPayloadParser.feed_data *)
+  Lemma payload_feed_spec f s c s' r :
+    comp (de s) = true -> B s -> E s ->
+    payload_feed H hnew hstep havail heof hflush f s c = (s', r) ->
+    frame s s' /\ B s' /\ K s' /\ (ptyp (pa s) = PChunked \/ nonframing r).
+  Proof.
+    intros Hc Hb He. unfold payload_feed. destruct (ptyp (pa s)) eqn:Et.
+    - intros Hf. destruct (len_feed_spec _ _ _ _ _ Hc Hb He Hf) as (X1 & X2 & X3 & X4). auto.
+    - intros Hf. destruct (chunked_feed_spec _ _ _ _ _ Hc Et Hb He Hf) as (X1 & X2 & X3). auto.
+    - intros Hf. destruct (eof_feed_spec _ _ _ _ _ Hc Hb He Hf) as (X1 & X2 & X3 & X4). auto.
+  Qed.
+
+  (* ---- protocol level ------------------------------------------------------------------------------------ *)
+  Definition pr_keep (f : prot -> prot) : Prop :=
+    forall p, connected (f p) = connected p /\ tpaused (f p) = tpaused p /\ rpaused (f p) = rpaused p /\
+              parser_alive (f p) = parser_alive p /\ closing (f p) = closing p.
+  Lemma R_pr s f : pr_keep f -> R s (pr_set H s f) /\ (E s -> E (pr_set H s f)) /\ pa (pr_set H s f) = pa s /\ de (pr_set H s f) = de s /\ re (pr_set H s f) = re s /\ pr (pr_set H s f) = f (pr s).
+  Proof.
+    intros Hk. bust s. unfold R. unf. unfold pr_set. cbn.
+    destruct (Hk (mkProt co tp rp al ppr hm cl)) as (K1 & K2 & K3 & K4 & K5). cbn in *. rewrite K1, K2, K3, K4, K5. crush.
+  Qed.
+  Ltac prk := unfold pr_keep; let p := fresh "p" in (intro p; destruct p; cbn; auto).
+
+  (* HttpPayloadParser.feed_eof() *)
+  Lemma payload_feed_eof_spec f s s' r :
+    comp (de s) = true -> B s -> K s -> (ptyp (pa s) = PChunked \/ G s) ->
+    payload_feed_eof H hnew hstep havail heof hflush f s = (s', r) -> frame s s' /\ B s' /\ K s'.
+  Proof.
+    intros Hc Hb Hk Hg. unfold payload_feed_eof. destruct (ptyp (pa s)) eqn:Et.
+    - destruct Hg as [?|Hg]; [discriminate|].
+      destruct (negb (plength (pa s) =? 0)); [intros [= <- <-]; split; [apply frame_refl|]; auto|].
+      destruct (drain H hnew hstep havail f s) as [s1 [| |e]] eqn:Edr; destruct (drain_spec _ _ _ _ Hc Hb Hg Edr) as (F1 & B1 & K1 & _).
+      + destruct (db_feed_eof H heof hflush s1) as [s2 [e|]] eqn:Ede; destruct (db_feed_eof_spec _ _ _ Ede) as (F2 & B2 & _ & K2 & _); intros [= <- <-].
+        * split; [ft|]. auto.
+        * destruct (upd_keep s2 (fun q => pa_done q true)) as (F3 & B3 & _ & K3 & _); [keeps_tac|]. split; [ft|]. auto.
+      + intros [= <- <-]. auto.
+      + intros [= <- <-]. auto.
+    - intros [= <- <-]. split; [apply frame_refl|]. auto.
+    - destruct Hg as [?|Hg]; [discriminate|].
+      destruct (upd_keep s (fun q => pa_eofp q true)) as (F0 & B0 & G0 & _ & _ & _ & _ & D0); [keeps_tac|].
+      set (s0 := upd_pa H s _) in *. assert (Hc0 : comp (de s0) = true) by (rewrite D0; auto).
+      destruct (drain H hnew hstep havail f s0) as [s1 [| |e]] eqn:Edr; destruct (drain_spec _ _ _ _ Hc0 (B0 Hb) (G0 Hg) Edr) as (F1 & B1 & K1 & _).
+      + destruct (db_feed_eof H heof hflush s1) as [s2 [e|]] eqn:Ede; destruct (db_feed_eof_spec _ _ _ Ede) as (F2 & B2 & _ & K2 & _); intros [= <- <-].
+        * split; [ft|]. auto.
+        * destruct (upd_keep s2 (fun q => pa_eofp (pa_done q true) false)) as (F3 & B3 & _ & K3 & _); [keeps_tac|]. split; [ft|]. auto.
+      + intros [= <- <-]. split; [ft|]. auto.
+      + intros [= <- <-]. split; [ft|]. auto.
+  Qed.
+
+  (* what survives connection_lost (connected changes, so this is weaker than frame) *)
+  Definition marks (s s' : st) : Prop :=
+    cf s' = cf s /\ low (re s') = low (re s) /\ high (re s') = high (re s) /\ (comp (de s) = true -> comp (de s') = true) /\
+    ptyp (pa s') = ptyp (pa s) /\ (Sz s -> Sz s').
+  Lemma frame_marks s s' : frame s s' -> marks s s'.
+  Proof. unfold frame, marks. intuition. Qed.
+  Lemma marks_trans a b c : marks a b -> marks b c -> marks a c.
+  Proof. unfold marks. intros (A1 & A2 & A3 & A4 & A5 & A6) (B1 & B2 & B3 & B4 & B5 & B6). repeat split; try congruence; auto. Qed.
+
+  Lemma connection_lost_spec f s :
+    comp (de s) = true -> B s -> K s -> (ptyp (pa s) = PChunked \/ G s) ->
+    let s' := connection_lost H hnew hstep havail heof hflush f s in
+    marks s s' /\ B s' /\ parser_alive (pr s') = false /\ connected (pr s') = false /\ closing (pr s') = false.
+  Proof.
+    intros Hc Hb Hk Hg. unfold connection_lost. cbv zeta.
+    match goal with |- context [pr_set H ?t _] => remember t as s1 eqn:Es1 end.
+    assert (H1 : frame s s1 /\ B s1).
+    { subst s1. destruct (parser_alive (pr s) && pp_present (pr s)); [|split; [apply frame_refl|assumption]].
+      destruct (payload_feed_eof H hnew hstep havail heof hflush f s) as [s2 [e|]] eqn:Ef;
+        destruct (payload_feed_eof_spec _ _ _ _ Hc Hb Hk Hg Ef) as (F2 & B2 & K2).
+      - destruct (R_exn s2 e) as (F3 & B3 & _). split; [ft|auto].
+      - destruct (pdone (pa s2)); [|auto].
+        destruct (R_pr s2 (fun p => mkProt (connected p) (tpaused p) (rpaused p) (parser_alive p) false (has_more p) (closing p))) as ((F3 & B3 & _) & _); [prk|].
+        split; [ft|auto]. }
+    clear Es1. destruct H1 as (F1 & B1). apply frame_marks in F1. clear - F1 B1.
+    bust s1. unfold marks in *. unf. unfold pr_set. cbn in *. crush.
+  Qed.
+
+  (* HttpParser.feed_data (payload branch) inside data_received *)
+  Definition frame0 (s s' : st) : Prop :=
+    cf s' = cf s /\ low (re s') = low (re s) /\ high (re s') = high (re s) /\
+    (comp (de s) = true -> comp (de s') = true) /\ ptyp (pa s') = ptyp (pa s) /\
+    connected (pr s') = connected (pr s) /\ parser_alive (pr s') = parser_alive (pr s) /\ (Sz s -> Sz s').
+  Lemma frame_frame0 s s' : frame s s' -> frame0 s s'.
+  Proof. unfold frame, frame0. intuition. Qed.
+  Lemma frame0_trans a b c : frame0 a b -> frame0 b c -> frame0 a c.
+  Proof. unfold frame0. intros (A1 & A2 & A3 & A4 & A5 & A6 & A7 & A8) (B1 & B2 & B3 & B4 & B5 & B6 & B7 & B8). repeat split; try congruence; auto. Qed.
+  Lemma frame0_marks s s' : frame0 s s' -> marks s s'.
+  Proof. unfold frame0, marks. intuition. Qed.
+
+  Lemma pr_close_spec s :
+    let s' := pr_set H s (fun p => mkProt (connected p) (tpaused p) (rpaused p) (parser_alive p) (pp_present p) (has_more p) true) in
+    frame0 s s' /\ (B s -> B s') /\ (K s -> K s').
+  Proof. bust s. unfold frame0. unf. unfold pr_set. cbn. crush. Qed.
+
+  Lemma parser_feed_spec f s data :
+    comp (de s) = true -> B s -> E s ->
+    let s' := parser_feed H hnew hstep havail heof hflush f s data in
+    frame0 s s' /\ B s' /\ K s' /\ (closing (pr s') = true -> closing (pr s) = true \/ ptyp (pa s) = PChunked).
+  Proof.
+    intros Hc Hb He. unfold parser_feed. cbv zeta.
+    assert (Hs : frame0 s s /\ B s /\ K s /\ (closing (pr s) = true -> closing (pr s) = true \/ ptyp (pa s) = PChunked)).
+    { split; [apply frame_frame0, frame_refl|]. auto using G_K, E_G. }
+    destruct (negb (parser_alive (pr s))); [exact Hs|].
+    destruct (isnil data && negb (has_more (pr s))); [exact Hs|].
+    destruct (negb (pp_present (pr s))); [exact Hs|]. clear Hs.
+    destruct (payload_feed H hnew hstep havail heof hflush f s data) as [s1 r] eqn:Ef.
+    destruct (payload_feed_spec _ _ _ _ _ Hc Hb He Ef) as (F1 & B1 & K1 & N1).
+    assert (Cl : closing (pr s1) = closing (pr s)) by (destruct F1 as (_ & _ & _ & _ & _ & _ & _ & _ & _ & X); exact X).
+    destruct r as [| |rest|e].
+    all: try (match goal with |- context [pr_set H ?t ?g] =>
+              destruct (R_pr t g) as ((F2 & B2 & _ & K2) & _ & _ & _ & _ & P2); [prk|];
+              split; [apply frame_frame0; ft|]; split; [auto|]; split; [auto|]; rewrite P2; cbn; rewrite Cl; auto end).
+    destruct (R_exn s1 e) as (F2 & B2 & _ & K2). destruct (rd_set_exn_spec s1 e) as (_ & _ & _ & _ & _ & P2). cbv zeta in *.
+    destruct (is_framing e) eqn:Efr.
+    - destruct (pr_close_spec (rd_set_exn H s1 e)) as (F3 & B3 & K3). cbv zeta in *.
+      split; [eapply frame0_trans; [apply frame_frame0; ft|exact F3]|]. split; [auto|]. split; [auto|]. intros _. right.
+      destruct N1 as [?|N1]; [assumption|]. specialize (N1 e eq_refl). congruence.
+    - match goal with |- context [pr_set H ?t ?g] =>
+        destruct (R_pr t g) as ((F3 & B3 & _ & K3) & _ & _ & _ & _ & P3); [prk|] end.
+      split; [apply frame_frame0; ft|]. split; [auto|]. split; [auto|]. rewrite P3, P2. cbn. rewrite Cl. auto.
+  Qed.
+
+  (* ---- the invariant between stimuli ------------------------------------------------------------------------ *)
+  Definition Inv (c : cfg) (s : st) : Prop :=
+    cf s = c /\ comp (de s) = true /\ c_flow c = true /\ 1 <= c_limit c /\
+    B s /\ K s /\ Sz s /\ high (re s) = low (re s) * 2 /\
+    (closing (pr s) = true -> ptyp (pa s) = PChunked) /\ (connected (pr s) = false -> parser_alive (pr s) = false).
+
+  Lemma resume_spec f s :
+    comp (de s) = true -> B s -> ~ over s ->
+    let s' := resume_reading H hnew hstep havail heof hflush f s in
+    frame0 s s' /\ B s' /\ K s' /\ (closing (pr s') = true -> closing (pr s) = true \/ ptyp (pa s) = PChunked).
+  Proof.
+    intros Hc Hb Ho. unfold resume_reading. cbv zeta.
+    match goal with |- context [parser_feed H hnew hstep havail heof hflush f ?t []] => set (s1 := t) end.
+    assert (H1 : frame0 s s1 /\ B s1 /\ E s1 /\ comp (de s1) = true /\ closing (pr s1) = closing (pr s) /\ ptyp (pa s1) = ptyp (pa s)).
+    { subst s1. clear - Hc Hb Ho. bust s. unfold frame0, E. unf. unfold pr_set. cbn in *. crush. }
+    destruct H1 as (F1 & B1 & E1 & C1 & Cl1 & T1).
+    destruct (parser_feed_spec f s1 [] C1 B1 E1) as (F2 & B2 & K2 & Cl2). cbv zeta in *.
+    set (s2 := parser_feed H hnew hstep havail heof hflush f s1 []) in *.
+    assert (F02 : frame0 s s2) by (eapply frame0_trans; [exact F1|exact F2]).
+    assert (Cl02 : closing (pr s2) = true -> closing (pr s) = true \/ ptyp (pa s) = PChunked) by (intro X; destruct (Cl2 X); [left|right]; congruence).
+    destruct (negb (rpaused (pr s2)) && connected (pr s2)) eqn:Er; [|auto].
+    clearbody s2. clear - F02 B2 K2 Cl02 Er. apply andb_true_iff in Er as [Er1 Er2]. apply negb_true_iff in Er1.
+    bust s2. unfold frame0 in *. unf. unfold pr_set. cbn in *. subst. crush.
+  Qed.
+
+  Lemma Inv_of c s s' :
+    Inv c s -> frame0 s s' -> B s' -> K s' ->
+    (closing (pr s') = true -> closing (pr s) = true \/ ptyp (pa s) = PChunked) -> Inv c s'.
+  Proof.
+    unfold Inv, frame0. intros (I1 & I2 & I3 & I4 & I5 & I6 & I7 & I8 & I9 & I10) (F1 & F2 & F3 & F4 & F5 & F6 & F7 & F8) Hb Hk Hcl.
+    split; [congruence|]. split; [auto|]. split; [assumption|]. split; [assumption|]. split; [assumption|]. split; [assumption|].
+    split; [auto|]. split; [congruence|]. split; [intro X; rewrite F5; destruct (Hcl X); auto|].
+    rewrite F6, F7. exact I10.
+  Qed.
+
+  (* _read_nowait_chunk *)
+  Lemma rd_take_inv c f s n s' d : Inv c s -> rd_take H hnew hstep havail heof hflush f s n = (s', d) -> Inv c s'.
+  Proof.
+    intros Hi. unfold rd_take. destruct (buf (re s)) as [|blk0 rest] eqn:Eb; [intros [= <- <-]; exact Hi|].
+    match goal with |- (let '(data, buf') := ?x in _) = _ -> _ => destruct x as [data buf'] eqn:Ex end.
+    assert (Hlen : lenN data + lenN (concat buf') = lenN (concat (blk0 :: rest))).
+    { cbn [concat]. rewrite lenN_app. destruct n as [k|].
+      - destruct (k <? lenN blk0) eqn:Ek; inversion Ex; subst; cbn [concat]; rewrite ?lenN_app; [pose proof (take_drop_len k blk0); lia|lia].
+      - inversion Ex; subst. lia. }
+    cbv zeta.
+    match goal with |- context [set_re H s ?r] => set (r1 := r) end.
+    set (s1 := set_re H s r1).
+    assert (Hs : rsize (re s) = lenN data + lenN (concat buf')).
+    { destruct Hi as (_ & _ & _ & _ & _ & _ & I7 & _). unfold Sz in I7. rewrite Eb in I7. lia. }
+    assert (I1 : Inv c s1 /\ (rsize (re s1) < low (re s1) \/ buf' = [] -> ~ over s1)).
+    { subst s1 r1. clear - Hi Hs. bust s. unfold Inv in *. unf. unfold set_re. cbn in *.
+      destruct Hi as (I1 & I2 & I3 & I4 & I5 & I6 & I7 & I8 & I9 & I10).
+      split; [split; [assumption|]; split; [assumption|]; split; [assumption|]; split; [assumption|]; split; [|split; [|split; [lia|split; [assumption|split; assumption]]]]|].
+      - intro Hm. specialize (I5 Hm). lia.
+      - destruct I6 as [?|[?|I6]]; auto. right; right. intro Ho. apply I6. lia.
+      - intros [Hl|He] Ho; [lia|]. subst buf'. cbn in Hs. lia. }
+    destruct I1 as (I1 & Hno).
+    match goal with |- ((if ?x then _ else _), _) = _ -> _ => destruct x eqn:Ec end; intros [= <- <-]; [|exact I1].
+    assert (Ho : ~ over s1).
+    { apply Hno. apply andb_true_iff in Ec as [Ec _]. apply orb_true_iff in Ec as [Ec|Ec].
+      - left. unfold dg_resume_size in Ec. subst s1 r1. destruct s; cbn in *. lia.
+      - right. apply andb_true_iff in Ec as [_ Ec]. destruct buf'; [reflexivity|discriminate]. }
+    pose proof I1 as (J1 & J2 & J3 & J4 & J5 & J6 & J7 & J8 & J9 & J10).
+    destruct (resume_spec f s1 J2 J5 Ho) as (F2 & B2 & K2 & Cl2).
+    apply (Inv_of c s1); auto. intro X. destruct (Cl2 X); auto.
+  Qed.
+
+  Lemma take_k_inv c f k : forall s acc s' d, Inv c s -> take_k H hnew hstep havail heof hflush f k s acc = (s', d) -> Inv c s'.
+  Proof.
+    induction k as [|k IH]; intros s acc s' d Hi; cbn [take_k]; [intros [= <- <-]; exact Hi|].
+    destruct (rd_take H hnew hstep havail heof hflush f s None) as [s1 d1] eqn:Et. intros Hk.
+    eapply IH; [|exact Hk]. eapply rd_take_inv; eauto.
+  Qed.
+
+  Lemma read_upto_inv c f g : forall s n acc s' d, Inv c s -> read_upto H hnew hstep havail heof hflush f g s n acc = (s', d) -> Inv c s'.
+  Proof.
+    induction g as [|g IH]; intros s n acc s' d Hi; cbn [read_upto]; [intros [= <- <-]; exact Hi|].
+    destruct (isnil (buf (re s))); [intros [= <- <-]; exact Hi|].
+    destruct (rd_take H hnew hstep havail heof hflush f s (Some n)) as [s1 d1] eqn:Et.
+    assert (I1 : Inv c s1) by (eapply rd_take_inv; eauto).
+    destruct (n - lenN d1 =? 0); [intros [= <- <-]; exact I1|]. intros Hk. eapply IH; eauto.
+  Qed.
+
+  Lemma set_chunk_inv c s n : Inv c s -> Inv c (set_chunk_size H s n).
+  Proof.
+    intros Hi. unfold set_chunk_size. destruct (dg_raises n (low (re s))) eqn:Er; [|exact Hi].
+    unfold dg_raises, dg_raise_low, dg_raise_high in *.
+    bust s. unfold Inv in *. unf. unfold set_re. cbn in *.
+    destruct Hi as (I1 & I2 & I3 & I4 & I5 & I6 & I7 & I8 & I9 & I10). subst c.
+    repeat split; auto.
+    - unfold dg_max_length in *. intro Hm.
+      destruct (dg_maxsize <=? n) eqn:E1; [congruence|]. destruct (dg_maxsize <=? lo) eqn:E2; [lia|].
+      assert (Hm0 : N.max (c_limit cg) lo <> 0) by (cbn in I4; lia). specialize (I5 Hm0).
+      pose proof (capf_mono (N.max (c_limit cg) lo) (N.max (c_limit cg) n) ltac:(lia)). lia.
+    - destruct I6 as [?|[?|I6]]; auto. right; right. intro Ho. apply I6. lia.
+  Qed.
+
+  Lemma set_wt_inv c s w : Inv c s -> Inv c (set_wt H s w).
+  Proof. intros Hi. bust s. unfold Inv in *. unf. unfold set_wt, set_re. cbn in *. exact Hi. Qed.
+
+  Lemma op_body_inv c f s o s' r : Inv c s -> op_body H hnew hstep havail heof hflush f s o = (s', r) -> Inv c s'.
+  Proof.
+    intros Hi. unfold op_body. cbv zeta.
+    destruct (isnil (buf (re s)) && negb (reof (re s))).
+    - destruct (connected (pr s)); intros [= <- <-]; apply set_wt_inv; exact Hi.
+    - pose proof (set_wt_inv c s WNone Hi) as H1. destruct o as [|n|n].
+      + destruct (take_k H hnew hstep havail heof hflush f (length (buf (re s))) (set_wt H s WNone) []) as [s1 d] eqn:Et.
+        intros [= <- <-]. eapply take_k_inv; eauto.
+      + destruct (read_upto H hnew hstep havail heof hflush f f (set_wt H s WNone) n []) as [s1 [d|]] eqn:Et;
+          intros [= <- <-]; eapply read_upto_inv; eauto.
+      + intros [= <- <-]. exact H1.
+  Qed.
+
+  Lemma op_start_inv c f s o s' r : Inv c s -> op_start H hnew hstep havail heof hflush f s o = (s', r) -> Inv c s'.
+  Proof.
+    intros Hi. unfold op_start. destruct o as [|n|n].
+    - destruct (rexn (re s)); [intros [= <- <-]; exact Hi|]. apply op_body_inv; exact Hi.
+    - destruct (rexn (re s)); [intros [= <- <-]; exact Hi|]. destruct (n =? 0); [intros [= <- <-]; exact Hi|].
+      apply op_body_inv. apply set_chunk_inv; exact Hi.
+    - intros [= <- <-]. apply set_chunk_inv; exact Hi.
+  Qed.
+
+  Lemma op_wake_inv c f s o s' r : Inv c s -> op_wake H hnew hstep havail heof hflush f s o = (s', r) -> Inv c s'.
+  Proof.
+    intros Hi. unfold op_wake. destruct (wt (re s)).
+    - intros [= <- <-]; exact Hi.
+    - intros [= <- <-]; exact Hi.
+    - destruct (op_body H hnew hstep havail heof hflush f s o) as [s1 r1] eqn:Eo. intros [= <- <-]. eapply op_body_inv; eauto.
+    - intros [= <- <-]. apply set_wt_inv; exact Hi.
+  Qed.
+
+  Lemma poll_inv c f (y y' : sys) o : Inv c (core y) -> poll H hnew hstep havail heof hflush f y = (y', o) -> Inv c (core y').
+  Proof.
+    intros Hi. unfold poll. destruct (pend y) as [op0|]; [|intros [= <- <-]; exact Hi].
+    destruct (op_wake H hnew hstep havail heof hflush f (core y) op0) as [s1 [r|]] eqn:Ew;
+      pose proof (op_wake_inv _ _ _ _ _ _ Hi Ew) as I1; [destruct r|]; intros [= <- <-]; exact I1.
+  Qed.
+
+  Lemma connection_lost_inv c f s : Inv c s -> (ptyp (pa s) = PChunked \/ G s) -> Inv c (connection_lost H hnew hstep havail heof hflush f s).
+  Proof.
+    intros (I1 & I2 & I3 & I4 & I5 & I6 & I7 & I8 & I9 & I10) Hg.
+    destruct (connection_lost_spec f s I2 I5 I6 Hg) as ((M1 & M2 & M3 & M4 & M5 & M6) & B1 & A1 & C1 & Cl1). cbv zeta in *.
+    unfold Inv. repeat split; try congruence; auto.
+    unfold K. right; left; exact A1.
+  Qed.
+
+  (* a stimulus may only reach the protocol while the transport is reading: then nothing is over the mark *)
+  Lemma deliverable_E c s : Inv c s -> deliverable H s = true -> parser_alive (pr s) = true -> E s.
+  Proof.
+    intros (I1 & I2 & I3 & I4 & I5 & I6 & I7 & I8 & I9 & I10) Hd Ha. unfold deliverable in Hd. rewrite I1, I3 in Hd. cbn in Hd.
+    apply andb_true_iff in Hd as [Hc Ht]. unfold E, K in *. destruct I6 as [?|[?|I6]]; [left; assumption|congruence|].
+    right. intro Ho. destruct (I6 Ho) as (_ & X). specialize (X Hc). rewrite X in Ht. discriminate.
+  Qed.
+
+  Lemma settle_inv c f (yo yo' : sys * obs) :
+    Inv c (core (fst yo)) -> settle H hnew hstep havail heof hflush f yo = yo' -> Inv c (core (fst yo')).
+  Proof.
+    destruct yo as [y o]. cbn [fst]. intros Hi. unfold settle. destruct (closing (pr (core y))) eqn:Ec; [|intros <-; exact Hi].
+    destruct (poll H hnew hstep havail heof hflush f (mkSys H (connection_lost H hnew hstep havail heof hflush f (core y)) (pend y))) as [y1 o1] eqn:Ep.
+    intros <-. cbn [fst]. eapply poll_inv; [|exact Ep]. cbn [core].
+    apply connection_lost_inv; [exact Hi|]. left. destruct Hi as (_ & _ & _ & _ & _ & _ & _ & _ & I9 & _). auto.
+  Qed.
+
+  Lemma step_inv c f (y y' : sys) ev o : Inv c (core y) -> step H hnew hstep havail heof hflush f y ev = (y', o) -> Inv c (core y').
+  Proof.
+    intros Hi. unfold step. cbv zeta. destruct ev as [d| |op0].
+    - destruct (deliverable H (core y) && pp_present (pr (core y)) && parser_alive (pr (core y)) && negb (isnil d)) eqn:Ed; [|intros [= <- <-]; exact Hi].
+      apply andb_true_iff in Ed as [Ed _]. apply andb_true_iff in Ed as [Ed Ha]. apply andb_true_iff in Ed as [Ed _].
+      pose proof (deliverable_E c _ Hi Ed Ha) as He.
+      pose proof Hi as (I1 & I2 & I3 & I4 & I5 & I6 & I7 & I8 & I9 & I10).
+      destruct (parser_feed_spec f (core y) d I2 I5 He) as (F1 & B1 & K1 & Cl1). cbv zeta in *.
+      assert (J : Inv c (parser_feed H hnew hstep havail heof hflush f (core y) d)).
+      { apply (Inv_of c (core y)); auto. }
+      intros Hs.
+      destruct (poll H hnew hstep havail heof hflush f (mkSys H (parser_feed H hnew hstep havail heof hflush f (core y) d) (pend y))) as [y1 o1] eqn:Ep.
+      pose proof (poll_inv c f _ _ _ J Ep) as J1.
+      pose proof (settle_inv c f (y1, o1) (y', o) J1 Hs) as J2. exact J2.
+    - destruct (deliverable H (core y) && pp_present (pr (core y)) && parser_alive (pr (core y))) eqn:Ed; [|intros [= <- <-]; exact Hi].
+      apply andb_true_iff in Ed as [Ed Ha]. apply andb_true_iff in Ed as [Ed _].
+      pose proof (deliverable_E c _ Hi Ed Ha) as He.
+      intros Hp. eapply poll_inv; [|exact Hp]. cbn [core]. apply connection_lost_inv; [exact Hi|]. right. apply E_G; exact He.
+    - destruct (pend y); [intros [= <- <-]; exact Hi|].
+      destruct (op_start H hnew hstep havail heof hflush f (core y) op0) as [s1 r] eqn:Eo.
+      pose proof (op_start_inv _ _ _ _ _ _ Hi Eo) as J.
+      destruct r as [d| |e].
+      + intros Hs. exact (settle_inv c f (mkSys H s1 None, ORes (RData d)) (y', o) J Hs).
+      + destruct (settle H hnew hstep havail heof hflush f (mkSys H s1 (Some op0), ONone)) as [y1 o1] eqn:Es.
+        pose proof (settle_inv c f _ _ J Es) as J1. cbn [fst] in J1. destruct o1; intros [= <- <-]; exact J1.
+      + intros Hs. exact (settle_inv c f (mkSys H s1 None, ORes (RErr e)) (y', o) J Hs).
+  Qed.
+
+  Lemma run_inv c f : forall evs (y y' : sys) os, Inv c (core y) -> run H hnew hstep havail heof hflush f y evs = (y', os) -> Inv c (core y').
+  Proof.
+    induction evs as [|ev evs IH]; intros y y' os Hi; cbn [run]; [intros [= <- <-]; exact Hi|].
+    destruct (step H hnew hstep havail heof hflush f y ev) as [y1 o] eqn:Es.
+    destruct (run H hnew hstep havail heof hflush f y1 evs) as [y2 os2] eqn:Er. intros [= <- <-].
+    eapply IH; [|exact Er]. eapply step_inv; eauto.
+  Qed.
+
+  Lemma init_inv c t len enc : c_flow c = true -> 1 <= c_limit c -> enc <> 0 -> Inv c (core (init H hnew c t len enc)).
+  Proof.
+    intros Hf Hl He. unfold init, Inv. unf. cbn. unfold dg_low, dg_high.
+    repeat split; auto; try lia; try discriminate.
+    - destruct (enc =? 0) eqn:E0; [lia|reflexivity].
+    - right; right. intro Ho. lia.
+  Qed.
+
+  Theorem bounded_memory : forall f c t len enc evs (y : sys) os,
+    c_flow c = true -> 1 <= c_limit c -> enc <> 0 ->
+    run H hnew hstep havail heof hflush f (init H hnew c t len enc) evs = (y, os) ->
+    let r := re (core y) in
+    dg_max_length (c_limit c) (low r) <> 0 ->
+    rsize r <= high r + capf (dg_max_length (c_limit c) (low r)) /\ high r = low r * 2.
+  Proof.
+    intros f c t len enc evs y os Hf Hl He Hr. cbv zeta.
+    pose proof (run_inv c f evs _ _ _ (init_inv c t len enc Hf Hl He) Hr) as (I1 & I2 & I3 & I4 & I5 & I6 & I7 & I8 & I9 & I10).
+    intro Hm. split; [|exact I8]. unfold B, Mx in I5. rewrite I1 in I5. auto.
   Qed.
 End Bound.
